@@ -210,6 +210,10 @@ def check(model, rep):
                 'element\'s position and speed, its result type-checked and stored, and E[i-1].load = E[i].load / eff / ratio '
                 'over E[0..n-2]; net = driving - load over all elements; and no stale read of any attribute or of the time '
                 'axis inside the instant. Code shape only; the motor law is decided by C08.')
+    # "at every recorded instant", after any history: Powertrain.reset must hand every variable its own fresh list and restore the
+    # attributes from their own first samples (C12's reset rule) - else a rerun records into lists that are no longer one per variable
+    from checks.c12 import check_reset as _check_reset
+    _check_reset(model, rep, R='C02.recorded.reset')
     # the motor's driving torque must be the documented characteristic: the law extracted by C08's rules
     from sa.core import Report
     from checks import c08
